@@ -241,6 +241,7 @@ def run(ctx, prop=PROP):
     hash_cases = hash_stream(ctx.rng, ctx.tier) if prop == 'C01' else []
     if prop == 'C01':
         packability_stream(ctx)
+        type_class_stream(ctx)
     n_prog_lines = len(lines)
     lines += [f'hash {algo} {msg.hex() or "-"}' for algo, msg in hash_cases]
     model = ctx.model(lines, driver=prop)
@@ -582,6 +583,94 @@ def packability_stream(ctx):
                               {'code': code, 'env': env, 'real': str(real)[:400]})
 
 
+# ---- the type classes the instructions' typing rules consult, against the Michelson reference table ------------------------------
+REF_LEAVES = ['unit', 'never', 'bool', 'int', 'nat', 'string', 'chain_id', 'bytes', 'mutez', 'key_hash', 'key', 'signature', 'timestamp', 'address',
+              'bls12_381_fr', 'bls12_381_g1', 'bls12_381_g2', 'operation', 'chest', 'chest_key']
+REF_COMPARABLE_LEAVES = REF_LEAVES[:14]
+# class -> the type constructors that are outside it (anywhere in the type, except inside a lambda's signature)
+REF_EXCLUDED = {'pushable': {'operation', 'big_map', 'contract', 'ticket', 'sapling_state'}, 'packable': {'operation', 'big_map', 'ticket', 'sapling_state'},
+                'duplicable': {'ticket'}, 'big_map_friendly': {'operation', 'big_map', 'sapling_state'},
+                'storable': {'operation', 'contract'}, 'passable': {'operation'}}
+
+
+def ref_in_class(t, cls):
+    p, args = t['prim'], [a for a in t.get('args', []) if 'prim' in a]
+    if cls == 'comparable':
+        if p in ('option', 'or', 'pair'):
+            return all(ref_in_class(a, cls) for a in args)
+        return p in REF_COMPARABLE_LEAVES
+    if p in REF_EXCLUDED[cls]:
+        return False
+    if p == 'lambda':
+        return True
+    return all(ref_in_class(a, cls) for a in args)
+
+
+def gen_any_type(rng, depth):
+    P = lambda prim, *args: {'prim': prim, 'args': list(args)} if args else {'prim': prim}
+    k = rng.randrange(16) if depth > 0 else 0
+    sub = lambda: gen_any_type(rng, depth - 1)
+
+    def cmp_(d):
+        j = rng.randrange(6) if d > 0 else 0
+        if j == 3:
+            return P('pair', cmp_(d - 1), cmp_(d - 1))
+        if j == 4:
+            return P('option', cmp_(d - 1))
+        if j == 5:
+            return P('or', cmp_(d - 1), cmp_(d - 1))
+        return P(rng.choice(REF_COMPARABLE_LEAVES))
+    if k <= 2:
+        return P(rng.choice(REF_LEAVES))
+    if k <= 4:
+        return P('pair', *[sub() for _ in range(rng.choice([2, 2, 3]))])
+    if k == 5:
+        return P('or', sub(), sub())
+    if k == 6:
+        return P('option', sub())
+    if k == 7:
+        return P('list', sub())
+    if k == 8:
+        return P('set', cmp_(depth - 1))
+    if k == 9:
+        return P('map', cmp_(depth - 1), sub())
+    if k == 10:
+        return P('big_map', cmp_(depth - 1), sub())
+    if k in (11, 12):
+        return P('lambda', sub(), sub())
+    if k == 13:
+        return P('contract', sub())
+    if k == 14:
+        return P('ticket', cmp_(depth - 1))
+    return P('sapling_state', {'int': str(rng.choice([8, 16]))})
+
+
+def type_class_stream(ctx):
+    """`MichelsonType.is_comparable / is_pushable / is_packable / is_duplicable / is_big_map_friendly / is_storable / is_passable` decide
+    whether COMPARE, PUSH, PACK / UNPACK / FAILWITH, DUP, EMPTY_BIG_MAP / big_map updates, storage and parameter declarations accept
+    a type.  Direction checked: a type the Michelson reference puts IN the class must be accepted (otherwise a well-typed program
+    fails); types pytezos accepts beyond the reference table are counted, not reported (ill-typed programs are outside C01)."""
+    from pytezos.michelson.types.base import MichelsonType
+    n = 700 if ctx.tier == 'quick' else 12000
+    for i in range(n):
+        t = gen_any_type(ctx.rng, ctx.rng.choice([1, 2, 2, 3, 3, 4]))
+        try:
+            cls_ = MichelsonType.match(t)
+        except Exception as e:      # e.g. nested big_map the type constructor itself refuses: not a class question
+            ctx.count('type-class', f'type refused:{type(e).__name__}')
+            continue
+        for c in ['comparable', 'pushable', 'packable', 'duplicable', 'big_map_friendly', 'storable', 'passable']:
+            want = ref_in_class(t, c)
+            try:
+                got = bool(getattr(cls_, 'is_' + c)())
+            except Exception as e:
+                got = f'raises {type(e).__name__}: {e}'
+            ctx.count('type-class', f'{c}: reference {"in" if want else "out"}, pytezos {"in" if got is True else ("out" if got is False else "raises")}')
+            if want and got is not True:
+                ctx.violation('type-class:' + c, f'the type {mich.type_text(t) if hasattr(mich, "type_text") else json.dumps(t)} is {c} in Michelson, pytezos says {got}: '
+                              f'a well-typed program using it with the instruction that asks for this class fails', {'type': t, 'class': c, 'got': str(got)})
+
+
 def instrs_in(code):
     """instruction forms occurring in a program; the forms that share a prim are told apart by their arguments"""
     out = set()
@@ -675,6 +764,23 @@ def collection_programs(g, rng, reps):
             for body, out in [([P('SOME')], ('option', vt)), ([P('DUP'), P('PAIR')], ('pair', vt, vt)), ([P('DROP'), P('UNIT')], ('unit',)), ([], vt)]:
                 val = g.gen_value(lt)
                 progs.append(([P('PUSH', gen_interp.ty_mich(lt), val), P('MAP', body)], [('list', out)], gen_env(rng)))
+    # bodies that change the TYPE of the element and keep its value (INT on nats, ABS on non-negative ints, the same inside a pair):
+    # the result is a collection of the new type although every new element compares equal to the old one
+    I = lambda n: {'int': str(n)}
+    for _ in range(reps):
+        ns = sorted({rng.choice([0, 1, 2, 7, 2 ** 64]) for _ in range(rng.choice([1, 2, 3]))})
+        L = lambda t: P('PUSH', P('list', P(t)), [I(n) for n in ns])
+        M = lambda t: P('PUSH', P('map', P('nat'), P(t)), [P('Elt', I(i), I(n)) for i, n in enumerate(ns)])
+        use_int = [P('MAP', [P('NEG')])]      # only an int can be negated into an int … the result has to BE a list of int
+        progs.append(([L('nat'), P('MAP', [P('INT')])], [('list', ('int',))], gen_env(rng)))
+        progs.append(([L('nat'), P('MAP', [P('INT')])] + use_int, [('list', ('int',))], gen_env(rng)))
+        progs.append(([L('int'), P('MAP', [P('ABS')])], [('list', ('nat',))], gen_env(rng)))
+        progs.append(([L('nat'), P('DUP'), P('MAP', [P('INT')])], [('list', ('int',)), ('list', ('nat',))], gen_env(rng)))
+        progs.append(([M('nat'), P('MAP', [P('CDR'), P('INT')])], [('map', ('nat',), ('int',))], gen_env(rng)))
+        progs.append(([M('int'), P('MAP', [P('CDR'), P('ABS')])], [('map', ('nat',), ('nat',))], gen_env(rng)))
+        progs.append(([M('nat'), P('MAP', [P('CDR'), P('INT')]), P('MAP', [P('CDR'), P('NEG')])], [('map', ('nat',), ('int',))], gen_env(rng)))
+        progs.append(([P('PUSH', P('list', P('pair', P('nat'), P('nat'))), [P('Pair', I(n), I(n)) for n in ns]), P('MAP', [P('UNPAIR'), P('INT'), P('PAIR')])],
+                      [('list', ('pair', ('int',), ('nat',)))], gen_env(rng)))
     # comb twins: the same leaf types in the same order under different nestings (a, b, c, d / (a, b), c, d / a, (b, c), d), built at run
     # time by PAIR n one after the other in one process — the type of a comb is a function of its items, not of their flattening
     leaf_ts = [('int',), ('nat',), ('string',), ('bool',), ('bytes',), ('mutez',)]
